@@ -465,7 +465,7 @@ func downRules(c *an.Ctx, r *runnerRoles, rule string) {
 					if callee == r.finish || callee == schedFinish {
 						return true
 					}
-					if _, isDefer := x.(*ssa.Defer); isDefer && len(an.CallsIn(callee, "(*pkg/runner.TaskRunner).Finish", "(*pkg/scheduler.Scheduler).Finish")) > 0 {
+					if _, isDefer := x.(*ssa.Defer); isDefer && len(an.CallsIn(callee, "(pkg/runner.TaskRunner).Finish", "(pkg/scheduler.Scheduler).Finish")) > 0 {
 						return true
 					}
 				}
